@@ -35,7 +35,9 @@ RULE = ("Hypothesis: data tensors of order 2-5 (sides 1-4, <= 400 entries; class
         "normalize_factors both, every TR start mode, partial_tucker on every mode subset; parafac / randomised_parafac / "
         "TR-ALS also stopped by a user callback at a drawn sweep (third stop path, label stop=callback); Tucker data also of "
         "exactly low multilinear rank or with duplicated / zeroed slices (over-requested ranks), svd truncated / symeig; "
-        "two-call histories reusing one rank list object for tensor_train / tensor_ring. Oracle: factor/core shapes from the "
+        "two-call histories reusing one rank list object for tensor_train / tensor_ring; parafac / parafac2 (function and "
+        "Parafac2 class) with line search and caps 7 / 9 / 11 so that runs END on a line-search sweep (label "
+        "stop=..._on_linesearch_iteration). Oracle: factor/core shapes from the "
         "library's validate_*_rank followed by an independent sequential clipping by unfolding sizes; TT boundary ranks 1, TR "
         "r0 = rN and chain consistency, one orthonormal projection per PARAFAC2 slice and equal cross-products; HOOI factors "
         "orthonormal and core = ref.multi_mode_dot(X, U^T); TT-SVD cores left-orthogonal except the last; with "
@@ -115,6 +117,17 @@ def stop_path(errors, n_iter, tol, cvg="abs_rec_error", first=1):
     return "converged" if hit else "cap"
 
 
+def _ls_suffix(stop, errors, c):
+    """the last executed sweep (index len(errors) - 1 when errors are recorded, else the cap) was a line-search sweep
+    (even index > 5): the run ENDS on a line-search iteration -> stop label '<stop>_on_linesearch_iteration'"""
+    if not c.get("linesearch") or not c["n_iter"]:
+        return stop
+    last = (len(errors) - 1) if (c["tol"] and len(errors)) else c["n_iter"] - 1
+    if last % 2 == 0 and last > 5:
+        return stop + "_on_linesearch_iteration"
+    return stop
+
+
 def orthonormal_cols(U, clause, what):
     U = np.asarray(U, dtype=float)
     check(U.ndim == 2, clause + "/shape", f"{what} has ndim {U.ndim}")
@@ -149,9 +162,14 @@ def _cp_case(draw, algo, normalize, iters=(0, 1, 2, 5, 8), inits=("svd", "random
          "tol": draw(st.sampled_from(list(tols))), "normalize": normalize,
          "cvg": draw(st.sampled_from(["abs_rec_error", "abs_rec_error", "rec_error"]))}
     if algo == "parafac":
-        c["linesearch"] = draw(st.booleans()) and draw(st.booleans())
+        c["linesearch"] = draw(st.booleans()) and (normalize or draw(st.booleans()))
+        if normalize and c["linesearch"] and draw(st.booleans()):
+            c["n_iter"] = draw(st.sampled_from([7, 9]))         # the capped run ends on a line-search sweep (6 or 8)
+            c["tol"] = draw(st.sampled_from([1e-5, 1e-12, 0]))
         # third stop path: the user callback returns True at sweep `cb_stop` (0-based); None = no callback
         c["cb_stop"] = draw(st.one_of(st.none(), st.integers(0, max(0, c["n_iter"] - 1)))) if c["n_iter"] >= 1 else None
+        if normalize and c["linesearch"] and c["n_iter"] in (7, 9) and draw(st.booleans()):
+            c["cb_stop"] = None
     if algo == "nn_hals":
         c["nn_sub"] = draw(st.booleans()) and draw(st.booleans())
     if c["init"] == "user":
@@ -227,6 +245,8 @@ def o_cp(c):
     stop = stop_path(errors, c["n_iter"], c["tol"], c["cvg"])
     if c["n_iter"] == 0:
         stop = "iter0"
+    if c["algo"] == "parafac":
+        stop = _ls_suffix(stop, errors, c)
     if c.get("cb_stop") is not None and len(errors) == c["cb_stop"] + 1:
         # the run ended in the sweep at which the callback answered True (the callback is consulted before the
         # convergence test, so this exit is the callback's even if the tolerance was met in the same sweep)
@@ -290,12 +310,19 @@ def _p2_case(draw, normalize):
     uniform = draw(st.booleans())
     J0 = draw(st.integers(rank, 4))
     Js = [J0] * n if uniform else [draw(st.integers(rank, 4)) for _ in range(n)]
-    return {"Js": Js, "K": K, "rank": rank, "dseed": draw(gen.seeds), "lowrank": draw(st.booleans()),
+    c = {"Js": Js, "K": K, "rank": rank, "dseed": draw(gen.seeds), "lowrank": draw(st.booleans()),
             "as_array": bool(uniform and draw(st.booleans())), "init": draw(st.sampled_from(["random", "svd"])),
-            "seed": draw(st.integers(0, 10 ** 6)), "n_iter": draw(st.sampled_from([0, 1, 2, 5, 8] if not normalize else [1, 2, 5, 8])),
-            "tol": draw(st.sampled_from([3e-1, 1e-1, 1e-2, 1e-9, 0])), "normalize": normalize,
+            "seed": draw(st.integers(0, 10 ** 6)),
+            # line-search iterations are the even sweeps 6, 8, 10: caps 7, 9, 11 END the run on one of them
+            "n_iter": draw(st.sampled_from([0, 1, 2, 5, 7, 8, 9, 11] if not normalize else [1, 2, 5, 7, 7, 8, 9, 9, 11])),
+            # 1e-12 / 0: the cap is reached; 1e-4 / 1e-6: converges late (possibly on a line-search sweep); >= 1e-2: early
+            "tol": draw(st.sampled_from([3e-1, 1e-1, 1e-2, 1e-4, 1e-6, 1e-12, 0])), "normalize": normalize,
             "nn": draw(st.sampled_from([None, None, [0], [0, 2]])), "linesearch": draw(st.booleans()),
-            "n_iter_parafac": draw(st.integers(1, 5))}
+            "n_iter_parafac": draw(st.integers(1, 5)), "via_class": draw(st.booleans())}
+    if normalize and c["linesearch"] and draw(st.integers(0, 2)) > 0:
+        c["n_iter"] = draw(st.sampled_from([7, 9, 11]))     # weight the runs that end on a line-search sweep
+        c["tol"] = draw(st.sampled_from([1e-4, 1e-6, 1e-12, 0]))
+    return c
 
 
 def o_p2(c):
@@ -309,9 +336,15 @@ def o_p2(c):
     else:
         slices = [rs.standard_normal((J, K)) for J in c["Js"]]
     data = np.stack(slices) if c["as_array"] else [s.copy() for s in slices]
-    res, errors = parafac2(data, r, n_iter_max=c["n_iter"], init=c["init"], normalize_factors=c["normalize"], tol=c["tol"],
-                           nn_modes=c["nn"], random_state=c["seed"], n_iter_parafac=c["n_iter_parafac"],
-                           linesearch=c["linesearch"], return_errors=True)
+    p2kw = dict(n_iter_max=c["n_iter"], init=c["init"], normalize_factors=c["normalize"], tol=c["tol"], nn_modes=c["nn"],
+                random_state=c["seed"], n_iter_parafac=c["n_iter_parafac"], linesearch=c["linesearch"], return_errors=True)
+    if c.get("via_class"):
+        from tensorly.decomposition import Parafac2
+        est = Parafac2(r, **p2kw)
+        res = est.fit_transform(data)
+        errors = est.errors_
+    else:
+        res, errors = parafac2(data, r, **p2kw)
     try:
         w, facs, projs = res
         facs, projs = list(facs), list(projs)
@@ -334,12 +367,14 @@ def o_p2(c):
     for i in range(1, n):
         close(cross[i], cross[0], "parafac2/cross_product", rel=1e-8, scale=sc)
     stop = stop_path(errors, c["n_iter"], c["tol"]) if c["n_iter"] else "iter0"
+    stop = _ls_suffix(stop, errors, c)
     if c["normalize"] and c["n_iter"] >= 1:
         unit_columns(w, facs, f"parafac2/normalized/{stop}")
     elif not c["normalize"]:
         weights_are_ones(w, "parafac2")
     return {"nontrivial": True, "labels": [f"stop={stop}", f"init={c['init']}", f"n_iter={c['n_iter']}", f"nn={c['nn']}",
-                                           f"linesearch={c['linesearch']}", f"uniform={len(set(c['Js'])) == 1}"]}
+                                           f"linesearch={c['linesearch']}", f"uniform={len(set(c['Js'])) == 1}",
+                                           f"class={bool(c.get('via_class'))}"]}
 
 
 @st.composite
@@ -1081,7 +1116,8 @@ def subchecks(tier):
     S = []
     for algo, q in (("parafac", 150), ("nn_mu", 120), ("nn_hals", 80)):
         S.append(SubCheck(f"{algo}/plain", _cp_case(algo, False), o_cp, quick=q, thorough=q * 10, discard_exc=LIN))
-        S.append(SubCheck(f"{algo}/normalized", _cp_case(algo, True, iters=(1, 2, 5, 8), tols=(3e-1, 1e-1, 1e-2, 1e-9, 0)), o_cp,
+        S.append(SubCheck(f"{algo}/normalized", _cp_case(algo, True, iters=((1, 2, 5, 7, 8, 9, 12) if algo == "parafac" else (1, 2, 5, 8)),
+                                                       tols=(3e-1, 1e-1, 1e-2, 1e-5, 1e-12, 0)), o_cp,
                           quick=q + 50, thorough=(q + 50) * 10, discard_exc=LIN))
         S.append(SubCheck(f"{algo}/normalized/iter0", _cp_case(algo, True, iters=(0,), inits=("svd", "random")), o_cp,
                           quick=60, thorough=400, discard_exc=LIN))
